@@ -66,7 +66,7 @@ CLAIMS = {
   text="Global-state model (per-thread NumPy errstate, warnings filters, print options, Awkward/Numba registration flags): every operation is a bracket that restores the errstate whether the body "
        "returns or raises; by induction any sequence of operations on any threads leaves the state unchanged; register_* idempotent and touching only their flag; fine-grained interleavings: each "
        "thread's results equal its sequential results, adjacent steps of different threads commute. Tie: snapshots of numpy.geterr/warnings.filters/printoptions/ak.behavior/registration flag around "
-       "every catalogued call (returning, raising, singular) under three prior settings; caller-owned behavior mapping; 16 threads vs sequential, bit-for-bit.",
+       "every catalogued call (returning, raising, singular) under three prior settings; caller-owned behavior mapping; 16 threads vs sequential, bit-for-bit; fingerprint of every module-level mutable container of the package before/after the catalogue; the catalogue run forwards and backwards in two fresh interpreters must agree call by call (history independence).",
   note="Trusted: the model's assumption that operation bodies read only operands and thread-local errstate (checked observationally); CPython/NumPy thread-local implementation and real scheduling are not modelled.",
   technique="Lean 4 proofs by induction over call sequences and schedules + global-state snapshot / multi-thread observation"),
 
@@ -74,13 +74,13 @@ CLAIMS = {
   text="Theorems about the glue model for all scalar types and compute layers: projections keep the retained stored coordinates verbatim (prefix), embeddings keep all "
        "stored coordinates and add exactly the keyword's value in the keyword's coordinate type or zero, to_<own system> is the identity (under the identity-accessor "
        "laws, proved for the generated copy), the 40-entry to_* table with momentum spellings. Model tied to the code by exact symbolic correspondence on the whole "
-       "conversion lattice (20 sources x 40 targets x keywords x 2 flavors). Round trips over the reals: accessor refinements (C01).",
+       "conversion lattice (20 sources x 40 targets x keywords x 2 flavors), plus a dimension-change lattice on NumPy and Awkward arrays with float64 / int64 / float32 columns (retained coordinates and imputed keyword values exact). Round trips over the reals: accessor refinements (C01).",
   note=GL, technique="Lean 4 proofs about a hand-written executable model + exact symbolic correspondence with the object backend"),
  "C05": dict(category="proof", design="4/C05",
   text="Theorems: handler = first operand of maximal backend priority; result backend/flavor rule of dispatch; dimension rule of _wrap_result per declared result shape; "
        "dimension guards of the nine same-dimension methods, cross, rotate_axis, boosts; operators = methods; TOTALITY of all 82 generated dispatch tables over their key "
        "types (decide +kernel). Correspondence: complete object-backend lattice (exact, symbolic) and a cross-backend type lattice (object/NumPy/Awkward array/record, both "
-       "registration modes) against the model's prediction. Four known findings in the Awkward backend are listed, everything else must match.",
+       "registration modes) against the model's prediction; `_wrap_result` of the object, NumPy, Awkward and SymPy backends called DIRECTLY on the whole finite lattice (28 declared result shapes x 20 stored systems x flavors: class, system and source of every coordinate vs the Lean rule wrapVec); operator/ufunc value lattice (abs ** numpy.power/sqrt/cbrt/square * / - + @ == != vs methods) on all backends; keyword = positional calls from the documented signatures. Five known findings in the Awkward backend are listed, everything else must match.",
   note=GL + "known-finding classes mask further changes of the same class (see DESIGN.md).",
   technique="Lean 4 proofs (incl. decide over generated tables) + exhaustive/sampled correspondence of result types"),
  "C06": dict(category="proof", design="4/C06",
@@ -94,7 +94,7 @@ CLAIMS = {
  "C07": dict(category="proof", design="4/C07",
   text="Lean model numbaCall of what COMPILED code returns (typing-time decisions of _numba_object.py: group by minimum dimension, signature, table lookup in the same generated tables, result class) "
        "next to the interpreter model call; theorems: for every supported property/method, whenever the interpreter succeeds and flavors agree the compiled result is identical (module, key, argument order, "
-       "class, coordinates), plus the exact characterisation of every difference (mixed flavor, boosts take self's class, mixed dimensions, unsupported names, keyword arguments, order-string case). "
+       "class, coordinates), plus the exact characterisation of every difference (mixed flavor, boosts take self's class, mixed dimensions, unsupported names, keyword arguments, order-string case). API SWEEP: every attribute, method, operator and constructor form numba's typing context resolves is compiled and compared with the interpreter (about 475 expressions per quick run), plus Awkward arrays (also with raw momentum field names) iterated in compiled code. "
        "Tie: numba's typing context asked for ~650 result types per quick run (19 960 in the agent's validation, 0 mismatches) and parallel compile-and-run probes (values and classes vs the interpreter).",
   note=GL + "the Numba compiler (LLVM code generation) is not modelled; three known findings (mixed flavor, boost flavor, order case).",
   technique="Lean 4 proofs relating two hand-written executable models + numba typing-context / compile-and-run correspondence"),
@@ -119,20 +119,20 @@ CLAIMS = {
  "C12": dict(category="proof", design="4/C12",
   text="Lean 4 theorems over the regenerated model: for ALL 4/36/144 coordinate-system key pairs and all reals, != <-> not ==, == reflexive/symmetric, same-system == and isclose "
        "characterised coordinate-wise, isclose reflexive, implied by == and monotone in both tolerances. Operator/method/numpy-function routing on object, NumPy and Awkward backends "
-       "is checked differentially against the Lean model evaluated at IEEE double. Known findings: numpy.isclose/allclose on object and Awkward vectors.",
+       "is checked differentially against the Lean model evaluated at IEEE double, and the coordinate-wise DEFINITION of isclose is checked on every same-system key with |a-b| on either side of atol + rtol*|b| (five tolerance pairs, three magnitudes, all backends). Known findings: numpy.isclose/allclose on object and Awkward vectors.",
   note=TB + "NaN is outside the real model; NumPy/Awkward element-wise semantics sampled, not proved.",
   technique="Lean 4 proof over translator-generated model + differential correspondence (Lean Float model vs real backends)"),
  "C13": dict(category="proof", design="4/C13",
   text="97 Lean theorems on the generated accessors and predicates: ranges of phi, deltaphi, theta, deltaangle; non-negativity; sign conventions of costheta/cottheta; t from tau >= 0; "
        "tau<0 iff spacelike; beta/gamma ranges; the three causal predicates pairwise disjoint and equal to the documented sign tests for every key and tolerance; "
-       "is_parallel/antiparallel/perpendicular iff cos(angle) within tolerance, for all key pairs.",
+       "is_parallel/antiparallel/perpendicular iff cos(angle) within tolerance, for all key pairs. The float64 ranges (phi, deltaphi, theta, costheta, deltaangle never NaN) are swept on exactly (anti)parallel and axis-aligned operands for every pair of coordinate systems (exploration, not proof).",
   note=TB + "singular strata (answers produced by nan_to_num replacement values) are exercised only on the real code by the law sweep.",
   technique="Lean 4 proofs over translator-generated model; mp law sweep incl. boundary strata as failing-input search"),
  "C14": dict(category="proof", design="4/C14",
   text="Theorems about the glue model: every momentum spelling resolves to the accessor of its geometric name (28 equations + completeness), calls and setters through a synonym "
        "equal those through the geometric name, to_* momentum conversions equal their geometric counterparts (C04), and flavor never changes a number (dispatch results agree after "
        "forgetting the momentum flag). Tie: symbolic correspondence for getters/conversions/setters on the object backend; NumPy and Awkward field access and item assignment through "
-       "every synonym compared value for value.",
+       "every synonym compared value for value; every derived alias (pt2, p, E2, mass2, transverse_mass2 ...) equals its geometric name on NumPy/Awkward arrays and in numba-compiled code; raw Awkward records carrying each momentum spelling as the field name read like the geometric spelling.",
   note=GL, technique="Lean 4 proofs about a hand-written executable model + exact symbolic / exhaustive synonym-table correspondence"),
  "C15": dict(category="proof", design="4/C15",
   text="The object vector as a state machine (assignment to any coordinate by any spelling, += -= *= /=): by induction over ALL finite histories class/flavor/dimension are invariant, "
